@@ -270,6 +270,9 @@ func (m *PeerInfo) UnmarshalBinary(data []byte) error {
 	// skip the already read compact length bytes
 	buffer.Next(bytesRead)
 
+	if nameLength > uint64(buffer.Len()) {
+		return fmt.Errorf("app name length %d exceeds the %d remaining bytes", nameLength, buffer.Len())
+	}
 	nameBuffer := make([]byte, nameLength)
 	_, err = io.ReadFull(buffer, nameBuffer)
 	if err != nil {
@@ -386,11 +389,21 @@ func (m *Message) ReadFrom(reader io.Reader) (int64, error) {
 	}
 	totalBytesRead += 1
 
-	payload := make([]byte, encodedMessageLength-1)
-	bytesRead, err := io.ReadFull(reader, payload)
-	totalBytesRead += int64(bytesRead)
+	// the length counts the type byte: zero is not a frame
+	if encodedMessageLength == 0 {
+		return totalBytesRead, io.ErrUnexpectedEOF
+	}
+
+	// read the payload as it arrives instead of trusting the declared length
+	// with an allocation of up to 4 GiB
+	payloadLength := int64(encodedMessageLength - 1)
+	payload, err := io.ReadAll(io.LimitReader(reader, payloadLength))
+	totalBytesRead += int64(len(payload))
 	if err != nil {
 		return totalBytesRead, err
+	}
+	if int64(len(payload)) != payloadLength {
+		return totalBytesRead, io.ErrUnexpectedEOF
 	}
 
 	var unmarshaler encoding.BinaryUnmarshaler
